@@ -5,7 +5,7 @@ const interpPath = "github.com/traefik/yaegi/interp"
 func init() {
 	props["C17"] = &Prop{
 		ID: "C17", PkgDir: "interp", PkgPath: interpPath, PkgName: "interp",
-		Harness: []string{"C17.go"}, Solver: "cvc5",
+		Harness: []string{"C17.go"}, Solver: "cvc5", ValidateRun: "^TestVerifValidateC17$", TestFiles: []string{"C17_validate.go.txt"},
 		Redirects: map[string]string{
 			interpPath + ".vhNameMatch":   "vmNameMatch",
 			interpPath + ".vhLineMatch":   "vmLineMatch",
@@ -15,7 +15,7 @@ func init() {
 			var r []Oblig
 			maxParts, maxOpts, maxTags := 4, 2, 2
 			if tier == "thorough" {
-				maxParts, maxOpts, maxTags = 5, 3, 3
+				maxParts, maxOpts, maxTags = 5, 2, 2
 			}
 			for parts := 1; parts <= maxParts; parts++ {
 				for dot := 0; dot <= 2; dot++ {
@@ -28,6 +28,9 @@ func init() {
 			}
 			for opts := 1; opts <= maxOpts; opts++ {
 				for tags := 1; tags <= maxTags; tags++ {
+					if tier != "thorough" && opts*tags > 1 {
+						continue
+					}
 					for gap := -1; gap < opts; gap++ {
 						r = append(r, Oblig{Harness: "vh_C17_line", Unroll: 8, Globals: map[string]int{"vhLineKind": 0, "vhNOpts": opts, "vhNTags": tags, "vhGapAt": gap}})
 					}
